@@ -6,6 +6,12 @@
 #include <limits>
 
 namespace coloquinte {
+#ifdef COLOQUINTE_VERIF
+namespace verif {
+void (*onMatrixSolve)(const AssembledSystem &) = nullptr;
+}  // namespace verif
+#endif
+
 NetModel::Parameters::Parameters() {
   netModel = NetModelOption::BoundToBound;
   approximationDistance = 10.0;
@@ -596,6 +602,21 @@ void MatrixCreator::finalize() {
 std::vector<float> MatrixCreator::solve(float tolerance, int maxIterations) {
   check();
   finalize();
+#ifdef COLOQUINTE_VERIF
+  if (verif::onMatrixSolve != nullptr) {
+    verif::AssembledSystem sys;
+    sys.nbCells = nbCells_;
+    sys.matSize = matSize();
+    for (const Eigen::Triplet<float> &t : mat_) {
+      sys.rows.push_back(t.row());
+      sys.cols.push_back(t.col());
+      sys.values.push_back(t.value());
+    }
+    sys.rhs = rhs_;
+    sys.initial = initial_;
+    verif::onMatrixSolve(sys);
+  }
+#endif
   Eigen::SparseMatrix<float> mat(matSize(), matSize());
   mat.setFromTriplets(mat_.begin(), mat_.end());
   Eigen::Map<Eigen::Matrix<float, -1, 1> > rhs(rhs_.data(), rhs_.size());
